@@ -775,8 +775,12 @@ class DocutilsRenderer(RendererProtocol):
         # TODO this is purely to mimic docutils, but maybe we don't need it?
         # (since we have the slugify logic below)
         name = nodes.fully_normalize_name(implicit_text)
-        node["names"].append(name)
+        # docutils registers *every* entry of node["names"]: names that are already
+        # registered (e.g. an explicit {#id}) must not be offered again
+        registered = node["names"][:]
+        node["names"] = [name]
         self.document.note_implicit_target(node, node)
+        node["names"] = registered + node["names"]
 
         if level > self.md_config.heading_anchors:
             return
